@@ -178,6 +178,7 @@ fn main() {
     "map" => mapprobe::run(&args[2]),
     "keys" => keyprobe::run(&args[2]),
     "stampsrc" => stampsrc::run(),
+    "wabort" => wabort::run(),
     x => panic!("unknown probe {}", x),
   }
 }
@@ -539,6 +540,74 @@ mod stampsrc {
           bu.update_affected_tasks();
         }
         println!("stampsrc ctx=bu mode={} nested={} seen={} stamps={} opens={}", mode, nested as u8, seen_by_task(pie.tracker()).join(","), stamps(pie.tracker()).join(","), opens(&pie) - before);
+      }
+    }
+    println!("#");
+  }
+}
+
+// ------------------------------------------------------------------ write-side aborts happen before the resource is opened for writing (C05, C06)
+// Opening a resource for writing can itself modify it (a file is created / truncated), so a write through the context that is
+// rejected (hidden dependency, overlapping write) must be rejected before `Resource::write` is called at all.
+mod wabort {
+  use std::panic::{catch_unwind, AssertUnwindSafe};
+  use pie::{Context, Pie, ResourceState, Task};
+  use pie::tracker::event::EventTracker;
+  use super::stampsrc::{Probe, PC, Opens};
+  use verif_harness::panic_message;
+
+  #[derive(Clone, PartialEq, Eq, Hash, Debug)] pub struct Rd(pub u32);
+  impl Task for Rd {
+    type Output = u32;
+    fn execute<C: Context>(&self, ctx: &mut C) -> u32 { ctx.read(&Probe(self.0), PC(false)).unwrap().no }
+  }
+  // Wr(resource, tag): writes the resource through the context; the tag distinguishes writer tasks
+  #[derive(Clone, PartialEq, Eq, Hash, Debug)] pub struct Wr(pub u32, pub u32);
+  impl Task for Wr {
+    type Output = u32;
+    fn execute<C: Context>(&self, ctx: &mut C) -> u32 { let mut seen = 0; ctx.write(&Probe(self.0), PC(false), |w| { seen = w.no; Ok(()) }).unwrap(); seen }
+  }
+  // Via(resource, tag): requires the writer (nested write)
+  #[derive(Clone, PartialEq, Eq, Hash, Debug)] pub struct Via(pub u32, pub u32);
+  impl Task for Via {
+    type Output = u32;
+    fn execute<C: Context>(&self, ctx: &mut C) -> u32 { ctx.require(&Wr(self.0, self.1), pie::task::EqualsChecker) }
+  }
+  fn opens(pie: &Pie<EventTracker>) -> u32 { pie.resource_state::<Probe>().get::<Opens>().map(|o| o.0).unwrap_or(0) }
+
+  pub fn run() {
+    for kind in ["hidden", "overlap"] {
+      for same_session in [true, false] {
+        for nested in [false, true] {
+          let mut pie = Pie::with_tracker(EventTracker::default());
+          let r = 7u32;
+          let second = |s: &mut pie::Session| { if nested { s.require(&Via(r, 2)) } else { s.require(&Wr(r, 2)) } };
+          let (before, res) = if same_session {
+            let mut s = pie.new_session();
+            if kind == "hidden" { s.require(&Rd(r)); } else { s.require(&Wr(r, 1)); }
+            drop(s);
+            let before = opens(&pie);
+            // same session variant: first and second build in ONE session
+            let mut pie2 = Pie::with_tracker(EventTracker::default());
+            let res = {
+              let mut s = pie2.new_session();
+              if kind == "hidden" { s.require(&Rd(r)); } else { s.require(&Wr(r, 1)); }
+              catch_unwind(AssertUnwindSafe(|| second(&mut s)))
+            };
+            let after = opens(&pie2);
+            println!("wabort kind={} session=same nested={} aborted={} msg={} opens_before={} opens_after={}", kind, nested as u8, res.is_err() as u8,
+                     res.as_ref().err().map(|e| panic_message(e).chars().take(16).collect::<String>().replace(' ', "_")).unwrap_or_default(), before, after);
+            continue;
+          } else {
+            { let mut s = pie.new_session(); if kind == "hidden" { s.require(&Rd(r)); } else { s.require(&Wr(r, 1)); } }
+            let before = opens(&pie);
+            let res = { let mut s = pie.new_session(); catch_unwind(AssertUnwindSafe(|| second(&mut s))) };
+            (before, res)
+          };
+          let after = opens(&pie);
+          println!("wabort kind={} session=other nested={} aborted={} msg={} opens_before={} opens_after={}", kind, nested as u8, res.is_err() as u8,
+                   res.as_ref().err().map(|e| panic_message(e).chars().take(16).collect::<String>().replace(' ', "_")).unwrap_or_default(), before, after);
+        }
       }
     }
     println!("#");
